@@ -202,7 +202,36 @@ Proof.
   - destruct toks as [|k [|eq [|v rest]]]; try discriminate.
     + inversion H; subst; auto.
     + destruct (String.eqb eq "="); try discriminate.
-      eapply IH; [|exact H]. apply dict_set_unique; auto.
+      destruct rest as [|sep rest].
+      * inversion H; subst. apply dict_set_unique; auto.
+      * destruct (String.eqb sep ","); try discriminate.
+        eapply IH; [|exact H]. apply dict_set_unique; auto.
+Qed.
+
+(* the shape of an accepted KEY=value token list: triples k = v separated by commas *)
+Inductive kv_shape : list string -> Prop :=
+| kv_nil : kv_shape []
+| kv_last : forall k v, kv_shape [k; "="; v]
+| kv_more : forall k v rest, kv_shape rest -> kv_shape (k :: "=" :: v :: "," :: rest).
+
+Lemma kv_pairs_shape fuel toks d r :
+  (List.length toks < fuel)%nat -> kv_pairs fuel toks d = Ok r -> kv_shape toks.
+Proof.
+  revert toks d; induction fuel as [|f IH]; simpl; intros toks d L H; [inversion L|].
+  destruct toks as [|k [|eq [|v rest]]]; try discriminate.
+  - constructor.
+  - destruct (String.eqb eq "=") eqn:E; try discriminate. apply String.eqb_eq in E; subst.
+    destruct rest as [|sep rest]; [constructor|].
+    destruct (String.eqb sep ",") eqn:S; try discriminate. apply String.eqb_eq in S; subst.
+    constructor. eapply IH; [|exact H]. simpl in L. apply PeanoNat.lt_S_n in L.
+    eapply PeanoNat.Nat.lt_trans; [|exact L]. auto with arith.
+Qed.
+
+Lemma env_separator_checked s r :
+  dict_of_key_value_pairs s = Ok r -> exists toks, shlex s = Some toks /\ kv_shape toks.
+Proof.
+  unfold dict_of_key_value_pairs. destruct (shlex s) as [toks|]; try discriminate.
+  intro H. exists toks. split; auto. eapply kv_pairs_shape; [|exact H]. auto.
 Qed.
 
 Lemma dict_of_kv_unique s r : dict_of_key_value_pairs s = Ok r -> unique_keys r.
@@ -951,16 +980,49 @@ Lemma negative_numprocs_accepted :
   processes_from_section py_expand ex_ctx "program:w" [("numprocs", "-2")] "w" PCProcess [] = Ok [].
 Proof. vm_compute. reflexivity. Qed.
 
-(* (3) the handler / sigmask constants of the signal module pass for signals *)
-Lemma signal_constants_accepted :
-  conv_signal (GStr "0") = Ok 0 /\ conv_signal (GStr "_IGN") = Ok 1 /\ conv_signal (GStr "SIG_SETMASK") = Ok 2.
+(* repaired (89ee4dd): the handler / sigmask constants of the signal module and
+   the number 0 are not signals; computed over the generated tables, so the old
+   SIGNUMS filter or a dropped name guard breaks this *)
+Lemma signal_constants_rejected :
+  Forall (fun s => conv_signal (GStr s) = Err ESignal)
+         ["0"; "_IGN"; "_DFL"; "SIG_IGN"; "SIG_DFL"; "SIG_BLOCK"; "_UNBLOCK"; "sig_setmask"; "-1"; "65"] /\
+  conv_signal (GStr "TERM") = Ok 15 /\ conv_signal (GStr "1") = Ok 1 /\ conv_signal (GStr "sigusr2") = Ok 12.
+Proof. vm_compute. repeat constructor. Qed.
+
+(* every accepted signal is one of the generated SIGNUMS, and an accepted name
+   does not carry the guarded prefix *)
+Lemma signal_accepted_is_signal v n : conv_signal v = Ok n -> In n signal_numbers.
+Proof.
+  unfold conv_signal. destruct v; try discriminate.
+  assert (Hx : forall m, existsb (Z.eqb m) signal_numbers = true -> In m signal_numbers).
+  { intros m H. apply existsb_exists in H. destruct H as (x & Hx & E). apply Z.eqb_eq in E. subst; auto. }
+  destruct (parse_int s).
+  - destruct (existsb (Z.eqb z) signal_numbers) eqn:E; intro H; inversion H; subst. auto.
+  - match goal with |- match ?x with _ => _ end = _ -> _ => destruct x; try discriminate end.
+    match goal with |- (if ?b then _ else _) = _ -> _ => destruct b; try discriminate end.
+    destruct (existsb (Z.eqb z) signal_numbers) eqn:E; intro H; inversion H; subst. auto.
+Qed.
+
+(* repaired (2aace49): the separator between KEY=value pairs must be a comma *)
+Lemma env_separator_examples :
+  dict_of_key_value_pairs "A==1" = Err EEnvSyntax /\
+  dict_of_key_value_pairs "A=1;B=2" = Err EEnvSyntax /\
+  dict_of_key_value_pairs "A=1," = Ok [("A", "1")] /\
+  dict_of_key_value_pairs "A=1,B=""x,y""" = Ok [("A", "1"); ("B", "x,y")].
 Proof. vm_compute. repeat split. Qed.
 
-(* (4) the separator between KEY=value pairs is not checked to be a comma *)
-Lemma env_separator_unchecked :
-  dict_of_key_value_pairs "A==1" = Ok [("A", "=")] /\
-  dict_of_key_value_pairs "A=1;B=2" = Ok [("A", "1"); ("B", "2")].
-Proof. vm_compute. repeat split. Qed.
+(* repaired (cffd68d): only the generated level names are logging levels *)
+Lemma loglevel_only_levels v n : conv_loglevel v = Ok n -> In (lower (py_str v), n) log_levels.
+Proof.
+  unfold conv_loglevel. generalize (lower (py_str v)) as k. intro k.
+  induction log_levels as [|[a b] r IH]; simpl; try discriminate.
+  destruct (String.eqb k a) eqn:E.
+  - apply String.eqb_eq in E; subst. intro H; inversion H; subst; auto.
+  - intro H. right. apply IH; auto.
+Qed.
+Lemma loglevel_dunder_rejected :
+  conv_loglevel (GStr "__module__") = Err ELogLevel /\ conv_loglevel (GStr "__doc__") = Err ELogLevel.
+Proof. vm_compute. split; reflexivity. Qed.
 
 (* (5) an empty name and brackets pass process_or_group_name although the
    documentation forbids them *)
